@@ -945,6 +945,13 @@ class Conn:
         self.r = self.w = None
 
     async def request(self, method, path, headers, body=None):
+        try:
+            return await asyncio.wait_for(self._request(method, path, headers, body), 30)
+        except asyncio.TimeoutError:
+            self.close()
+            return -2, b'timeout'
+
+    async def _request(self, method, path, headers, body=None):
         for attempt in (0, 1):
             try:
                 if self.w is None:
@@ -1311,7 +1318,8 @@ def build_shard(hist, hres, info, res, stats):
                 return None
             ops += action_ops(a)
             stats['actions'] = stats.get('actions', 0) + 1
-            stats['action:%s:%s' % (a['a'], ar.get('via'))] = stats.get('action:%s:%s' % (a['a'], ar.get('via')), 0) + 1
+            an = a['a'] + ('-refused' if a.get('refused') else '') + ('-own-document' if a.get('own') else '')
+            stats['action:%s:%s' % (an, ar.get('via'))] = stats.get('action:%s:%s' % (an, ar.get('via')), 0) + 1
             continue
         if 'slave' in item:
             sc = item['slave']
